@@ -66,6 +66,10 @@ CLAIMED = {
         text="Lean theorems by structural induction over module trees: quantize() replaces exactly the selected eligible leaves (Linear, Conv2d, LayerNorm only with activations) by twins carrying the same identity and leaves everything else untouched, for every tree, filter and qtype; the branch trace of QModuleMixin.forward for the four input/activation cases. "
              "Correspondence on random trees (classes, names, filters) and on forward branch traces; float parameters, hyper-parameters, dtype and names compared bit for bit; each quantized module's output compared with the float module on the dequantized weight and (de)quantized input — bit-exact for Conv2d/LayerNorm (fallback ops), inside the accumulation envelope / one output step for Linear (torch is its own reference).",
         design="6/C08", technique="Lean 4 structural induction on module trees + differential correspondence; torch-vs-torch bit equality for numerics"),
+    "C09": dict(
+        text="Lean theorems over all histories of forward / freeze / optimizer step / copy events: the quantized weight used by every forward is the one derived from the current float version, freezing does not change it and is idempotent, a frozen weight ignores later events; storage formula of frozen weights from the packing density and grouping theorems. "
+             "Real models under random histories: outputs bit-identical across freeze / refreeze / to(cpu) / deepcopy, non-weight state untouched, frozen payload and scale counts equal to the formula.",
+        design="6/C09", technique="Lean 4 proof over a weight state machine (induction on histories) + torch-vs-torch bit equality on real histories"),
 }
 
 NOT_YET = "check not yet built in this round (build in progress; see DESIGN.md build order)"
